@@ -703,7 +703,101 @@ class Inliner:
 def inline_new_helpers(tree: ast.Module, known_functions: set[str], external_calls: set[str] | None = None) -> int:
     inl = Inliner(tree, known_functions)
     inl.external = external_calls or set()
+    # a method that any other class also defines may be an overridable hook: `self.m()` then does not denote this body
+    by_name: dict[str, set] = {}
+    for st in tree.body:
+        if isinstance(st, ast.ClassDef):
+            for m in st.body:
+                if isinstance(m, (ast.FunctionDef, ast.AsyncFunctionDef)):
+                    by_name.setdefault(m.name, set()).add(st.name)
+    for (cls, name), h in inl.helpers.items():
+        if cls is not None and (len(by_name.get(name, ())) > 1 or ("def " + name) in inl.external):
+            h.failed = True
     return inl.run()
+
+
+# ------------------------------------------------------------------------------------------------ 2b. contextlib.suppress
+
+def _suppress_names(tree: ast.Module) -> tuple[set[str], set[str]]:
+    """-> (local names bound to contextlib.suppress, local names bound to the contextlib module)"""
+    direct: set[str] = set()
+    mods: set[str] = set()
+    for x in ast.walk(tree):
+        if isinstance(x, ast.ImportFrom) and x.module == "contextlib" and x.level == 0:
+            for a in x.names:
+                if a.name == "suppress":
+                    direct.add(a.asname or a.name)
+        elif isinstance(x, ast.Import):
+            for a in x.names:
+                if a.name == "contextlib":
+                    mods.add(a.asname or a.name)
+    # a rebinding of the name anywhere makes it unreliable
+    for x in ast.walk(tree):
+        if isinstance(x, ast.Name) and isinstance(x.ctx, (ast.Store, ast.Del)) and (x.id in direct or x.id in mods):
+            direct.discard(x.id)
+            mods.discard(x.id)
+        elif isinstance(x, (ast.FunctionDef, ast.AsyncFunctionDef, ast.ClassDef)) and (x.name in direct or x.name in mods):
+            direct.discard(x.name)
+            mods.discard(x.name)
+        elif isinstance(x, ast.arg) and (x.arg in direct or x.arg in mods):
+            direct.discard(x.arg)
+            mods.discard(x.arg)
+    return direct, mods
+
+
+def _suppressed_types(item: ast.withitem, direct: set[str], mods: set[str]):
+    """the exception classes of `suppress(E, ..)` when the with-item is exactly that, else None"""
+    e = item.context_expr
+    if item.optional_vars is not None or not isinstance(e, ast.Call) or e.keywords or not e.args:
+        return None
+    f = e.func
+    ok = (isinstance(f, ast.Name) and f.id in direct) or \
+         (isinstance(f, ast.Attribute) and f.attr == "suppress" and isinstance(f.value, ast.Name) and f.value.id in mods)
+    if not ok:
+        return None
+    for a in e.args:
+        # only plain references: their evaluation has no effect, so moving it from block entry to the handler is not observable
+        x = a
+        while isinstance(x, ast.Attribute):
+            x = x.value
+        if not isinstance(x, ast.Name):
+            return None
+    return list(e.args)
+
+
+class _Suppress(ast.NodeTransformer):
+    def __init__(self, direct, mods):
+        self.direct, self.mods, self.count = direct, mods, 0
+
+    def visit_With(self, node: ast.With):
+        self.generic_visit(node)
+        for i, item in enumerate(node.items):
+            types = _suppressed_types(item, self.direct, self.mods)
+            if types is None:
+                continue
+            # `with a, suppress(E), b: B`  ==  `with a: try: (with b: B) except E: pass`
+            inner = node.body if i == len(node.items) - 1 else [ast.copy_location(ast.With(items=node.items[i + 1:], body=node.body), node)]
+            typ = types[0] if len(types) == 1 else ast.copy_location(ast.Tuple(elts=types, ctx=ast.Load()), types[0])
+            handler = ast.copy_location(ast.ExceptHandler(type=typ, name=None, body=[ast.copy_location(ast.Pass(), node)]), node)
+            tr = ast.copy_location(ast.Try(body=inner, handlers=[handler], orelse=[], finalbody=[]), node)
+            self.count += 1
+            if i == 0:
+                return self.visit(tr) if i < len(node.items) - 1 else tr
+            outer = ast.copy_location(ast.With(items=node.items[:i], body=[self.visit(tr) if i < len(node.items) - 1 else tr]), node)
+            return outer
+        return node
+
+
+def desugar_suppress(tree: ast.Module) -> int:
+    """`with contextlib.suppress(E): B` -> `try: B / except E: pass` (what the context manager does; the flow graph has no edge for it)"""
+    direct, mods = _suppress_names(tree)
+    if not direct and not mods:
+        return 0
+    t = _Suppress(direct, mods)
+    t.visit(tree)
+    if t.count:
+        ast.fix_missing_locations(tree)
+    return t.count
 
 
 # ------------------------------------------------------------------------------------------------ 3. alias elimination
